@@ -1087,6 +1087,15 @@ Proof.
       destruct e; simpl; rewrite ?(X is_allow eq_refl), ?(X is_deny eq_refl); try reflexivity. contradiction.
 Qed.
 
+Lemma admissible_lt k x : admissible k x = true -> (x < r_arity k)%nat.
+Proof.
+  unfold admissible, r_arity, i_act, i_obj, i_dom, i_sub. intro Ha.
+  apply andb_true_iff in Ha. destruct Ha as [Hp Ha]. destruct (k_prio k); [discriminate|].
+  repeat rewrite orb_true_iff in Ha.
+  destruct Ha as [[[Ha|Ha]|Ha]|Ha]; try (apply andb_true_iff in Ha; destruct Ha as [Ha Hx]);
+    apply Nat.eqb_eq in Ha; subst x; destruct (k_dom k); try discriminate; lia.
+Qed.
+
 Section Decide.
   Variables k0 k1 : nat.
   Notation keys_of := (keys_of k0 k1).
@@ -1107,8 +1116,8 @@ Section Decide.
     rewrite (nth_error_fld _ _ _ Hb), (nth_error_fld _ _ _ E1) in M1. congruence.
   Qed.
 
-  (* FastEnforcer.enforce = Enforcer.enforce *)
-  Theorem decide_equal k s p l req a b :
+  (* the indexed path: the request reaches both key positions *)
+  Lemma decide_equal_keyed k s p l req a b :
     R p l ->
     admissible k k0 = true -> admissible k k1 = true -> k_eff k <> PR ->
     (forall r, In r l -> length r = p_arity k) ->
@@ -1117,7 +1126,7 @@ Section Decide.
     fe_enforce k0 k1 k s p req = (p, plain_enforce k s l req).
   Proof.
     intros HR A0 A1 He Hlen Ha Hb Hq. pose proof HR as [Hf [Hi [Hn Hs]]].
-    unfold fe_enforce, plain_enforce, fp_with_filter. rewrite Ha, Hb. cbn [fst snd].
+    unfold fe_enforce, plain_enforce, fp_with_filter. rewrite Ha, Hb. cbv zeta. cbn [fst snd].
     rewrite (iter_filtered p a b). f_equal.
     - destruct p as [c f]. simpl in *. subst f. reflexivity.
     - apply enforce_bucket_eq.
@@ -1135,26 +1144,59 @@ Section Decide.
         assert (X : In y []) by (apply Hs; left; reflexivity). exact X.
   Qed.
 
-  (* a request that does not reach a cache-key position raises IndexError before anything else
-     (even when enforcement is disabled) *)
-  Theorem short_request_raises k s p req :
-    nth_error req k0 = None \/ nth_error req k1 = None -> fe_enforce k0 k1 k s p req = (p, Err EIndex).
+  (* a request that does not reach a cache-key position takes the ordinary path and behaves exactly like
+     the plain enforcer whatever rules it holds: True when enforcement is disabled, "invalid request
+     size" otherwise (an admissible key position lies inside the request definition) *)
+  Theorem short_request_like_plain k s p l req :
+    admissible k k0 = true -> admissible k k1 = true ->
+    nth_error req k0 = None \/ nth_error req k1 = None ->
+    fe_enforce k0 k1 k s p req = (p, plain_enforce k s l req).
   Proof.
-    intros [H|H]; unfold fe_enforce; rewrite H; [reflexivity|]. destruct (nth_error req k0); reflexivity.
+    intros A0 A1 Hs.
+    assert (Har : Nat.eqb (length req) (r_arity k) = false).
+    { apply Nat.eqb_neq. pose proof (admissible_lt k k0 A0). pose proof (admissible_lt k k1 A1).
+      destruct Hs as [H1|H1]; apply nth_error_None in H1; lia. }
+    assert (X : forall outs outs' em,
+      enforce (intermediate_ref (k_eff k)) (final_ref (k_eff k)) eff_bool
+              {| enabled := m_enabled s; arity_ok := Nat.eqb (length req) (r_arity k) |} outs em
+      = enforce (intermediate_ref (k_eff k)) (final_ref (k_eff k)) eff_bool
+              {| enabled := m_enabled s; arity_ok := Nat.eqb (length req) (r_arity k) |} outs' em).
+    { intros outs outs' em. rewrite !enforce_is_fst_enforce_ex, Har. destruct (m_enabled s).
+      - rewrite !arity_raises by reflexivity. reflexivity.
+      - rewrite !disabled_allows by reflexivity. reflexivity. }
+    unfold fe_enforce, plain_enforce. cbv zeta.
+    destruct (nth_error req k0) as [a|] eqn:E0; [destruct (nth_error req k1) as [b|] eqn:E1|].
+    - destruct Hs; discriminate.
+    - f_equal. apply X.
+    - f_equal. apply X.
+  Qed.
+
+  (* FastEnforcer.enforce = Enforcer.enforce, for every request *)
+  Theorem decide_equal k s p l req :
+    R p l ->
+    admissible k k0 = true -> admissible k k1 = true -> k_eff k <> PR ->
+    (forall r, In r l -> length r = p_arity k) ->
+    empty_rule_quirk k0 k1 k s p req = false ->
+    fe_enforce k0 k1 k s p req = (p, plain_enforce k s l req).
+  Proof.
+    intros HR A0 A1 He Hlen Hq.
+    destruct (nth_error req k0) as [a|] eqn:E0; [destruct (nth_error req k1) as [b|] eqn:E1|].
+    - exact (decide_equal_keyed k s p l req a b HR A0 A1 He Hlen E0 E1 Hq).
+    - apply short_request_like_plain; auto.
+    - apply short_request_like_plain; auto.
   Qed.
 
   (* after any management history from the empty policy *)
-  Corollary decide_equal_after_history k s ops req a b :
+  Corollary decide_equal_after_history k s ops req :
     Forall (wf_op k0 k1) ops ->
     admissible k k0 = true -> admissible k k1 = true -> k_eff k <> PR ->
     (forall r, In r (fst (prun [] ops)) -> length r = p_arity k) ->
-    nth_error req k0 = Some a -> nth_error req k1 = Some b ->
     empty_rule_quirk k0 k1 k s (fst (frun k0 k1 fp_new ops)) req = false ->
     snd (fe_enforce k0 k1 k s (fst (frun k0 k1 fp_new ops)) req) = plain_enforce k s (fst (prun [] ops)) req.
   Proof.
-    intros Hw A0 A1 He Hlen Ha Hb Hq.
+    intros Hw A0 A1 He Hlen Hq.
     destruct (history_simulation k0 k1 ops fp_new [] (R_new k0 k1) Hw) as [_ HR].
-    rewrite (decide_equal k s _ _ req a b HR A0 A1 He Hlen Ha Hb Hq). reflexivity.
+    rewrite (decide_equal k s _ _ req HR A0 A1 He Hlen Hq). reflexivity.
   Qed.
 End Decide.
 
@@ -1185,16 +1227,6 @@ Proof.
     rewrite H1. exact H2. }
   repeat split; try (vm_compute; reflexivity); try discriminate.
   intros r [H|[]]. subst. reflexivity.
-Qed.
-
-(* known finding C19/short-request-indexed-first: enforcement disabled, request shorter than a key position *)
-Theorem short_request_refuted :
-  exists k s p l req,
-    R 2 1 p l /\ m_enabled s = false
-    /\ snd (fe_enforce 2 1 k s p req) = Err EIndex /\ plain_enforce k s l req = Ok true.
-Proof.
-  exists K_ACL, (s_off K_ACL), fp_new, [], [1003].
-  split; [apply R_new|]. repeat split; vm_compute; reflexivity.
 Qed.
 
 (* the priority effector is order-sensitive and the index does not keep the plain order: an update
